@@ -227,6 +227,11 @@ def run(case):
     upd = case.get("update") is not None and any(rr.deleting is not None for rr in m.sections[2] + m.sections[1])
     if npointers:
         classes.append("pointer")
+        hops = max(len(info.pointers) for info in wm.names)
+        if hops >= 11:
+            classes.append("pointer-hops>=11")
+        elif hops >= 4:
+            classes.append("pointer-hops>=4")
     if ext:
         classes.append("extended-rcode")
     if upd:
@@ -258,6 +263,6 @@ def parts(tier):
         Part("messages", run, strategy=MG.message(), n={"quick": 5000, "thorough": 300000},
              require={"pointer": 1000, "extended-rcode": 100, "update-any-none": 100, "size>0x4000": 20,
                       "origin": 300, "relative-255": 10, "update-class-not-IN": 50, "padded": 300, "edns": 1000, "opcode:5": 200, "opcode:4": 100,
-                      "same-owner-two-covers:RRSIG": 40, "same-owner-two-covers:SIG": 40},
+                      "same-owner-two-covers:RRSIG": 40, "same-owner-two-covers:SIG": 40, "pointer-hops>=11": 80},
              shards={"quick": 16, "thorough": 16}),
     ]
